@@ -8,6 +8,7 @@ f16_0:
   call f20_3
   call f17_1
   call f22_2
+  mov wvsv1(%rip),%rax
   ret
 .section .text.f16_1,"ax",@progbits
 .globl f16_1
@@ -27,4 +28,5 @@ f16_2:
   call f9_0
   call f15_0
   call f25_3
+  mov wvsv0@GOTPCREL(%rip),%rax
   ret
